@@ -28,48 +28,6 @@ Ltac range_tac := unfold refs_in_range; repeat (apply Forall_cons || apply Foral
 Ltac excl_tac := unfold node_shape_excl; repeat (apply Forall_cons || apply Forall_nil); vm_compute; congruence.
 Definition fuel100 : nat := 100.
 
-(* root in block 1: SetShapeOrder hands SetBlockOrder the order [2; 1] *)
-Theorem set_shape_order_refuted :
-  exists m names,
-    sm_unk m = false /\ refs_in_range (sm_g m) /\ node_shape_excl (sm_g m) /\
-    root_node (sm_g m) = Some 1 /\
-    (exists st, shape_order_indices fuel100 (sm_ob m) names (sm_g m) = Ok st /\ st_nidx st = [2; 1]) /\
-    set_shape_order fuel100 names m = Fault.
-Proof.
-  exists w_root1, [1]. split; [reflexivity|]. split; [range_tac|].
-  split; [excl_tac|]. split; [reflexivity|].
-  split; [eexists; split; vm_compute; reflexivity|vm_compute; reflexivity].
-Qed.
-
-(* root in block 0, the same name twice: the root afterwards lists one child twice (before: once) *)
-Theorem shape_order_duplicate_refuted :
-  exists m names st,
-    refs_in_range (sm_g m) /\ node_shape_excl (sm_g m) /\ root_node (sm_g m) = Some 0 /\
-    vlen names = vlen (indices_where (has_kind K_SHAPE) 0 (sm_g m)) /\
-    shape_order_indices fuel100 (sm_ob m) names (sm_g m) = Ok st /\
-    children_of (sm_g m) 0 = [1; 2] /\ children_of (st_gr st) 0 = [1; 1; 2].
-Proof.
-  exists w_dup, [1; 1]. eexists. split; [range_tac|].
-  split; [excl_tac|]. split; [reflexivity|]. split; [reflexivity|].
-  split; [vm_compute; reflexivity|]. split; reflexivity.
-Qed.
-
-(* a name that does not resolve, the other shape not a child of the root: the root lists itself *)
-Definition w_missing : smodel :=
-  mkSM [blank 2 0 [1; 3] [NPOS; NPOS]; blank 8 1 [] [NPOS; NPOS]; blank 8 2 [] [NPOS; NPOS]; blank 2 0 [2] [NPOS; NPOS]] false false.
-
-Theorem shape_order_missing_refuted :
-  exists m names st,
-    refs_in_range (sm_g m) /\ node_shape_excl (sm_g m) /\ root_node (sm_g m) = Some 0 /\
-    vlen names = vlen (indices_where (has_kind K_SHAPE) 0 (sm_g m)) /\
-    shape_order_indices fuel100 (sm_ob m) names (sm_g m) = Ok st /\
-    children_of (sm_g m) 0 = [1; 3] /\ children_of (st_gr st) 0 = [3; 0; 1].
-Proof.
-  exists w_missing, [2; 9]. eexists. split; [range_tac|].
-  split; [excl_tac|]. split; [reflexivity|]. split; [reflexivity|].
-  split; [vm_compute; reflexivity|]. split; reflexivity.
-Qed.
-
 (* ---- pruning: the sorter's view of DeleteUnreferencedBlocks is Graph's delete_unreferenced ---- *)
 Lemma to_block_shift id b : to_block (map_refs (shift_ref id) b) = block_deleted id (to_block b).
 Proof. unfold to_block, map_refs, block_deleted. cbn. rewrite map_app. reflexivity. Qed.
